@@ -245,6 +245,11 @@ def specRemoveItem (a : AState) (h : CH) (name : Option Name) : AState × Except
         if x.items.length == 1 then ({ a with loops := a.loops.filter (fun y => !(y.cid == x.cid && y.num == x.num)) }, .ok ())
         else (a.onLoop x.cid x.num (fun y => y.dropItem n.key), .ok ())
 
+/-- cif_container_get_all_loops: a handle on every loop of the container, in the container's order -/
+def specAllLoops (a : AState) (h : CH) : Except Code (List LH) :=
+  if !a.containers.any (fun c => c.id == h.id) then .error CIF_INVALID_HANDLE
+  else .ok ((a.loops.filter (fun y => y.cid == h.id)).map (fun y => { cid := h.id, loopNum := y.num, category := y.category }))
+
 -- ---- histories on the documented model -----------------------------------------------------------------------------------------------
 
 /-- the world of a history, every managed CIF as the documented model; the handle tables are the caller's (a handle names an object),
@@ -284,7 +289,7 @@ end AWorld
 /-- the ops `specStep` covers so far -/
 def Op.covered : Op → Bool
   | .addPkt .. | .setCat .. | .ldestroy .. => true
-  | .names .. | .catLoop .. | .itemLoop .. | .prune .. | .mkBlock .. | .mkFrame .. | .mkLoop .. | .addItem .. | .getVal .. | .rmItem .. => true
+  | .names .. | .catLoop .. | .itemLoop .. | .prune .. | .mkBlock .. | .mkFrame .. | .mkLoop .. | .addItem .. | .getVal .. | .rmItem .. | .loops .. => true
   | .cifNew | .cifDel .. | .getBlock .. | .blocks .. | .getFrame .. | .frames .. | .code .. | .isBlock .. | .getCat .. | .cdestroy .. => true
   | _ => false
 
@@ -434,6 +439,18 @@ def specStep (a : AWorld) : Op → Option (AWorld × Result)
     | some (e, st) =>
       let (st1, r) := specRemoveItem st e.h n
       some (a.setCif e.cif st1, { rc := some (codeOf r) })
+  | .loops h =>
+    match a.liveH h with
+    | none => some (a, skipped)
+    | some (e, st) =>
+      match specAllLoops st e.h with
+      | .error c => some (a.setCif e.cif st, { rc := some c })
+      | .ok ls =>
+        -- the caller then asks each returned handle for its category and its names
+        some (a.setCif e.cif st, { rc := some CIF_OK, out := .loops (ls.map (fun l =>
+          match specGetNames st l with
+          | .ok ns => (l.category, some (ns.map (·.2)))
+          | .error _ => (l.category, none))) })
   | _ => none
 
 /-- a whole history on the documented model (`none` as soon as an op is not covered) -/
